@@ -180,8 +180,9 @@ Proof. destruct cx; reflexivity. Qed.
 
 Lemma nmap_exit_ctx c t cx s : nmap c (exit_ctx t cx s) = exit_ctx t cx (nmap c s).
 Proof.
-  unfold exit_ctx. rewrite nmap_pause_plain, get_task_nmap.
-  destruct (get_task t s) as [tk|]; cbn [option_map]; autorewrite with nm; reflexivity.
+  unfold exit_ctx. rewrite get_task_nmap.
+  destruct (get_task t s) as [tk|]; cbn [option_map]; [|apply nmap_pause_plain].
+  cbn [ntk tk_cact]. destruct (tk_cact tk); rewrite ?nmap_pause_plain; autorewrite with nm; reflexivity.
 Qed.
 
 Lemma nmap_fold {X} (g : st -> X -> st) c l :
@@ -851,12 +852,10 @@ Qed.
 
 Lemma shr_exit_ctx t x c s : shr t s (exit_ctx x c s).
 Proof.
-  unfold exit_ctx.
-  assert (H : shr t s (match get_task x s with
-                       | Some tk => set_task x (tk_with_ctxs tk (remove_ctx c (tk_ctxs tk)) (tk_cact tk)) s
-                       | None => s end)).
-  { destruct (get_task x s) as [tk|] eqn:G; [|apply shr_refl]. apply (shr_set_task t x tk); [exact G|left; reflexivity]. }
-  eapply shr_trans; [exact H|]. apply shr_view. destruct c; reflexivity.
+  unfold exit_ctx. destruct (get_task x s) as [tk|] eqn:G; [|apply shr_view; destruct c; reflexivity].
+  assert (H : shr t s (set_task x (tk_with_ctxs tk (remove_ctx c (tk_ctxs tk)) (tk_cact tk)) s)).
+  { apply (shr_set_task t x tk); [exact G|left; reflexivity]. }
+  destruct (tk_cact tk); [|exact H]. eapply shr_trans; [exact H|]. apply shr_view. destruct c; reflexivity.
 Qed.
 
 Lemma shr_fold {X} t (f : st -> X -> st) l : (forall s x, shr t s (f s x)) -> forall s, shr t s (fold_left f l s).
@@ -1289,7 +1288,7 @@ Lemma cxr_trace_on :
   ([Some (Ok (VInt 100))],
    [EvStep [0%Z] 0 (Ok VNone); EvStep [0%Z] 1 (Ok (VInt 1)); EvStep [2%Z] 0 (Ok VNone); EvStep [0%Z] 2 (Ok VNone);
     EvGot [0%Z] (Err E_RUNTIME); EvStep [0%Z] 3 (Ok VNone); EvStep [5%Z] 0 (Ok VNone); EvResume [5%Z] 9;
-    EvPause [5%Z] 9; EvPause [5%Z] 9; EvDone [5%Z] (Err 77%Z); EvGot [0%Z] (Err 77%Z); EvDone [0%Z] (Ok (VInt 100));
+    EvPause [5%Z] 9; EvDone [5%Z] (Err 77%Z); EvGot [0%Z] (Err 77%Z); EvDone [0%Z] (Ok (VInt 100));
     EvSched 0 0 None]).
 Proof. vm_compute. reflexivity. Qed.
 
